@@ -162,3 +162,13 @@ Proof.
          (parse_inline_one_line cfg rf cf lt s H13 H0 Hc env)).
 Qed.
 Print Assumptions C18_any_containers_is_parse_inline.
+
+(* the renderer on those token lists: the HTML is the rendering of the inline children between the tags of the containers -
+   the same children rendered once, whatever the nesting *)
+From MD Require Import Lemmas.NestRender.
+Theorem C18_render_any_containers :
+  forall o s cs ch cch ch',
+    render_inline_list o None ch = Ok (cch, ch') ->
+    render o (wrapc s cs 0 false ch) = Ok (nest_html cs false (html_of cch), wrapc s cs 0 false ch').
+Proof. exact render_nested. Qed.
+Print Assumptions C18_render_any_containers.
